@@ -110,15 +110,28 @@ def r13_2(ctx):
         return
     k = idxs[0] + 1
     ord_ = Origins(rd)
-    gate = None
+    parse = [bb for bb, t in rd.calls() if (callee_name(t) or "").endswith("parse_divider_bytes")]
+    cands = []
     for sb, st in switches(rd):
         be = bool_edges(rd, sb)
-        if be is None:
+        if be is not None:
+            tree = inl.reduce(rd, cond_tree(rd, sb, ord_))
+            if any(n.kind == "arg" and n.a == k for n in tree.walk()):
+                cands.append((sb, be, tree))
             continue
-        tree = inl.reduce(rd, cond_tree(rd, sb, ord_))
-        if any(n.kind == "arg" and n.a == k for n in tree.walk()):
-            gate = (sb, be, tree)
-    parse = [bb for bb, t in rd.calls() if (callee_name(t) or "").endswith("parse_divider_bytes")]
+        # `match position_of_bytes(line, &salted_prefix) { Some(start) => parse(&line[start..]) .. }`
+        ve, rvv = variant_edges(rd, sb)
+        if ve is not None and set(ve) == {"Some", "None"}:
+            tree = inl.reduce(rd, ord_.operand({"copy": rvv["place"]}))
+            if any(n.kind == "arg" and n.a == k for n in tree.walk()):
+                cands.append((sb, (ve["Some"], ve["None"]), tree))
+    gate = None
+    for c_ in cands:
+        sb_, (tt_, tf_), _t = c_
+        if parse and all(p in rd.reachable(tt_) and p not in rd.reachable(0, removed_edges=[(sb_, tt_)]) for p in parse):
+            gate = c_
+    if gate is None and cands:
+        gate = cands[0]
     if gate is None or not parse:
         ctx.bad("reader-uses-nonce", rd.where(), "the salt parameter of iterate_divided_output does not reach any comparison that gates divider parsing")
         return
@@ -126,6 +139,23 @@ def r13_2(ctx):
     ctx.check(all(p in rd.reachable(tt) and p not in rd.reachable(0, removed_edges=[(sb, tt)]) for p in parse), "reader-uses-nonce", rd.loc(sb),
               "a line is parsed as a divider only when it carries this run's salt",
               "parse_divider_bytes is reachable without the salt test succeeding")
+    # .. and the parser is handed the line from the salted prefix on: text in front of it (unterminated output of the test, which may itself
+    # look like a divider) is never searched for the unsalted prefix
+    for pbb in parse:
+        pt_ = rd.blocks[pbb]["term"]
+        arg = ord_.operand(pt_["args"][0])
+        from_salted = False
+        for n in arg.walk():
+            if n.kind == "call" and method_name(n.a) == "Index::index" and len(n.kids) == 2:
+                rng = peel(n.kids[1])
+                if rng.kind == "agg" and "RangeFrom" in str(rng.a[0]) and rng.kids:
+                    st_ = inl.reduce(rd, rng.kids[0])
+                    if any(x.kind == "arg" and x.a == k for x in st_.walk()) and any(x.kind == "variant" and x.a == "Some" for x in st_.walk()):
+                        from_salted = True
+        ctx.check(from_salted, "reader-parses-from-salt", rd.loc(pbb),
+                  "parse_divider_bytes receives line[start..] with start = position of this run's salted prefix",
+                  "parse_divider_bytes receives %s: it searches the whole line for the first *unsalted* divider prefix, so unterminated output that contains "
+                  "the prefix text in front of the real divider makes the document fail (or shifts the captured bytes)" % arg.show()[:80])
     # writer and reader prefix constants agree
     a = prog.const("DIVIDER_PREFIX").as_bytes()
     b = prog.const("DIVIDER_PREFIX_BYTES").as_bytes()
@@ -486,10 +516,116 @@ def r13_6(ctx):
                   "divider echo, so the command is not run as written and its output / exit code are misattributed" % (lit,))
 
 
+def r13_7(ctx):
+    """replace_crlf drops exactly the CR of every CR LF pair: per byte, the only path that does not copy the byte is guarded by
+    `byte == CR` *and* `bytes.get(index + 1) == Some(&LF)`; the copied value is the byte itself; all bytes are visited; the
+    no-CRLF fast path tests windows(2) against b"\r\n" """
+    prog = ctx.prog
+    f = prog.fn("newline::replace_crlf")
+    o = Origins(f)
+    back = f.back_edges()
+    nexts = [(bb, t) for bb, t in f.calls() if mname(t) == "Iterator::next" and "Enumerate<" in (t.get("self_ty") or "") and "u8" in (t.get("self_ty") or "")]
+    pushes = [(bb, t) for bb, t in f.calls() if mname(t) == "Vec::push"]
+    if len(nexts) != 1 or len(pushes) != 1 or len({h for _, h in back}) != 1:
+        raise AnchorError("replace_crlf: not a single per-byte loop with one push (unrecognised form: %d next, %d push)" % (len(nexts), len(pushes)))
+    (nb, nt), (pb, pt) = nexts[0], pushes[0]
+    ve, rv = variant_edges(f, nt["target"])
+    if ve is None or "Some" not in ve:
+        raise AnchorError("replace_crlf: iterator result not matched")
+    start, head = ve["Some"], list({h for _, h in back})[0]
+    it = o.operand(nt["args"][0])
+    whole = any(n.kind == "call" and method_name(n.a) == "slice::iter" and any(k.kind == "arg" and k.a == 1 for k in n.walk()) for n in it.walk()) and \
+        not any(n.kind == "call" and method_name(n.a) in ("Iterator::skip", "Iterator::take", "Iterator::step_by", "Iterator::filter", "Iterator::rev") for n in it.walk())
+    ctx.check(whole, "crlf:all-bytes", f.loc(nb), "every byte of the input is visited in order", "the loop iterates %s" % it.show()[:100])
+
+    def is_item(tree, comp):
+        n = peel(tree)
+        while n.kind == "deref" and n.kids:
+            n = peel(n.kids[0])
+        return n.kind == "field" and n.a == comp and n.kids and n.kids[0].kind == "field" and n.kids[0].a == "0" and \
+            any(k.kind == "call" and k.at == (nb, "term") for k in n.walk())
+    cr = lf = None
+    for sb, st in switches(f):
+        be = bool_edges(f, sb)
+        if be is None or sb not in f.reachable(start, removed_edges=back):
+            continue
+        tree = cond_tree(f, sb, o)
+        neg = False
+        while tree.kind == "un" and tree.a == "Not":
+            neg, tree = not neg, tree.kids[0]
+        if tree.kind == "bin" and tree.a in ("Eq", "Ne") and any(k.kind == "const" and k.a.as_int() == 13 for k in tree.kids) and any(is_item(k, "1") for k in tree.kids):
+            if tree.a == "Ne":
+                neg = not neg
+            cr = (sb, be[1] if neg else be[0])
+        elif tree.kind == "call" and method_name(tree.a) in ("PartialEq::eq", "PartialEq::ne"):
+            if method_name(tree.a) == "PartialEq::ne":
+                neg = not neg
+            sides = [peel(k) for k in tree.kids]
+            get = [x for x in sides if x.kind == "call" and method_name(x.a) == "slice::get"]
+            cst = [x for x in sides if x.kind == "const"]
+            if len(get) == 1 and len(cst) == 1:
+                idx = peel(get[0].kids[1])
+                plus1 = idx.kind == "field" and idx.a == "0" and idx.kids[0].kind == "bin" and idx.kids[0].a in ("AddWithOverflow", "Add") and \
+                    idx.kids[0].kids[1].kind == "const" and idx.kids[0].kids[1].a.as_int() == 1 and is_item(idx.kids[0].kids[0], "0")
+                on_input = any(k.kind == "arg" and k.a == 1 for k in get[0].kids[0].walk())
+                pt_ = promoted_tree(prog, f, cst[0].a)
+                some_lf = pt_ is not None and "Some" in pt_.show() and any(k.kind == "const" and k.a.as_int() == 10 for k in pt_.walk())
+                if plus1 and on_input and some_lf:
+                    lf = (sb, be[1] if neg else be[0])
+    ctx.check(cr is not None, "crlf:cr-test", f.where(), "the current byte is compared with CR (13)", "no `byte == b'\\r'` test on the current byte")
+    ctx.check(lf is not None, "crlf:lf-test", f.where(), "the following byte is looked up as bytes.get(index + 1) and compared with Some(&LF)",
+              "no `bytes.get(index + 1) == Some(&b'\\n')` test: what follows a CR is not examined in the input itself")
+    val = o.operand(pt["args"][1])
+    ctx.check(is_item(val, "1"), "crlf:copy-verbatim", f.loc(pb), "the byte copied to the result is the current input byte", "the copied value is %s" % val.show()[:80])
+    if cr is not None and lf is not None:
+        # the only way to finish an iteration without pushing leads over both guard edges
+        tails = {b for b, h in back}
+
+        def skip_possible(removed):
+            seen, todo = set(), [start]
+            rem = set(removed)
+            while todo:
+                b = todo.pop()
+                if b in seen or b == pb:
+                    continue
+                seen.add(b)
+                if b in tails:
+                    return True
+                for s2 in f.succ(b):
+                    if (b, s2) not in rem and not f.blocks[s2]["cleanup"]:
+                        todo.append(s2)
+            return False
+        ctx.check(skip_possible([]) and not skip_possible([cr]) and not skip_possible([lf]), "crlf:skip-guarded", f.loc(pb),
+                  "a byte is dropped only if it is CR and the next input byte is LF (every other path of the iteration copies it)",
+                  "a byte can be dropped without passing both the CR test and the LF look-ahead (or no byte is ever dropped)")
+    # the fast path: no CR LF pair -> input returned as is
+    anys = [(bb, t) for bb, t in f.calls() if mname(t) == "Iterator::any"]
+    ok_fast = False
+    for bb, t in anys:
+        src = o.operand(t["args"][0])
+        win = [n for n in src.walk() if n.kind == "call" and method_name(n.a) == "slice::windows"]
+        cl = peel(o.operand(t["args"][1]))
+        if win and peel(win[0].kids[1]).kind == "const" and peel(win[0].kids[1]).a.as_int() == 2 and cl.kind == "agg" and str(cl.a[0]).startswith("closure "):
+            cb = prog.body_by_def(cl.a[0][len("closure "):], f.crate)
+            r = peel(Origins(cb).local(0)) if cb is not None else None
+            if r is not None and r.kind == "call" and method_name(r.a) == "PartialEq::eq":
+                for k in r.walk():
+                    if k.kind == "const":
+                        pt_ = promoted_tree(prog, cb, k.a)
+                        if pt_ is not None and any(x.kind == "const" and x.a.as_bytes() == b"\r\n" for x in pt_.walk()):
+                            ok_fast = True
+    if anys:
+        ctx.check(ok_fast, "crlf:fast-path", f.where(), "the unchanged-input fast path is taken exactly when no window of two bytes equals CR LF",
+                  "the fast path of replace_crlf does not test windows(2) against b\"\\r\\n\"")
+    else:
+        ctx.ok("crlf:fast-path", f.where(), "no fast path")
+
+
 def run(ctx):
     ctx.run_rule("R13.1", "splice-last: the str::replace that inserts the user's shell expression is the last substitution; Cram pushes the expression unmodified [E-FLOW]", r13_1, floor=6)
     ctx.run_rule("R13.2", "divider nonce: the random salt reaches the divider reader and gates divider recognition; writer/reader prefix agree [E-FLOW, summaries depth 4]", r13_2, floor=4)
     ctx.run_rule("R13.3", "no unbounded recursion: every cycle of the resolved call graph (lib+bin) is in the confirmed table [E-REC]", r13_3, floor=2)
+    ctx.run_rule("R13.7", "replace_crlf: per byte, the only non-copying path is guarded by byte==CR and bytes.get(index+1)==Some(&LF); copies are verbatim; fast path = no CR LF window [E-PATH]", r13_7, floor=6)
     ctx.run_rule("R13.4", "guard tables: replace_crlf iff keep_crlf != Some(true); strip_colors iff strip_ansi_escaping == Some(true); Merge iff Combined; stdin and captured streams unmodified [E-PATH, E-FLOW]", r13_4, floor=10)
     ctx.run_rule("R13.6", "Cram script: the user's expression is separated from scrut's footer by an empty line (no continuation into the divider echo) [E-FLOW order]", r13_6, floor=2)
     ctx.run_rule("R13.5", "Cram: per-test exit code and stdout come from the divider reader; outputs.len()==testcases.len() dominates Ok [E-FLOW, E-PATH]", r13_5, floor=3)
